@@ -8,10 +8,49 @@ import (
 	"regexp"
 	"runtime"
 	"strings"
+	"sync"
 	"time"
 )
 
 var header = regexp.MustCompile(`^goroutine (\d+) \[([^\],]+)(?:, [^\]]*)?\]:`)
+
+// leftovers: goroutines of the code under test that existed when the current case began (see SetBaseline).
+var (
+	leftMu    sync.Mutex
+	leftovers = map[string]bool{}
+)
+
+// SetBaseline is called at the start of a case, before its world is built. Goroutines of the code under test that exist at
+// that moment belong to earlier cases of the same process (a case that failed is torn down abruptly and may leave goroutines
+// blocked for good, e.g. on a mutex held by a producer whose consumer is gone) or to process-wide services; they cannot
+// touch the fresh world of the new case and are ignored by the detectors. Without this, one failing case made every later
+// case of the process (rapid's shrinking!) wait for the full cap.
+func SetBaseline() {
+	buf := make([]byte, 1<<20)
+	for {
+		n := runtime.Stack(buf, true)
+		if n < len(buf) {
+			buf = buf[:n]
+			break
+		}
+		buf = make([]byte, 2*len(buf))
+	}
+	set := map[string]bool{}
+	for _, g := range strings.Split(string(buf), "\n\n") {
+		if m := header.FindStringSubmatch(g); m != nil && strings.Contains(g, "github.com/zilliztech/milvus-cdc/") {
+			set[m[1]] = true
+		}
+	}
+	leftMu.Lock()
+	leftovers = set
+	leftMu.Unlock()
+}
+
+func isLeftover(id string) bool {
+	leftMu.Lock()
+	defer leftMu.Unlock()
+	return leftovers[id]
+}
 
 // Busy returns a description of one goroutine of the code under test that is not parked, or "".
 func Busy() string {
@@ -29,7 +68,7 @@ func Busy() string {
 		if m == nil {
 			continue
 		}
-		if !strings.Contains(g, "github.com/zilliztech/milvus-cdc/") {
+		if !strings.Contains(g, "github.com/zilliztech/milvus-cdc/") || isLeftover(m[1]) {
 			continue
 		}
 		if strings.Contains(g, "verifharness/quiesce.Busy") {
@@ -128,7 +167,7 @@ func snapshot() (lines []string, active string) {
 	}
 	for _, g := range strings.Split(string(buf), "\n\n") {
 		m := header.FindStringSubmatch(g)
-		if m == nil || !strings.Contains(g, "github.com/zilliztech/milvus-cdc/") || strings.Contains(g, "verifharness/quiesce.") {
+		if m == nil || !strings.Contains(g, "github.com/zilliztech/milvus-cdc/") || strings.Contains(g, "verifharness/quiesce.") || isLeftover(m[1]) {
 			continue
 		}
 		state := m[2]
